@@ -118,7 +118,8 @@ def check_table(ctx, case, thorough):
     rng = ctx.rng
     shipped = isinstance(case["table"], str)
     tab = [tuple(p) for p in (golden()[case["table"]]["points"] if shipped else case["table"])]
-    spec = {"table": case["table"], "bc": case["bc"], "mv_fps": 2600.0}
+    # (with 'tuned_in_place' the model is constructed with another BC: the BC under test is given by assignment afterwards)
+    spec = {"table": case["table"], "bc": case["bc"] * 1.5 if case.get("tuned_in_place") else case["bc"], "mv_fps": 2600.0}
     shot = build.shot(spec)
     calc = Calculator(_config=dict(case["config"])) if case.get("config") else Calculator()
     if case.get("config"):
@@ -131,7 +132,6 @@ def check_table(ctx, case, thorough):
         keep = [(p.Mach, p.CD) for p in dm.drag_table]
         for p in dm.drag_table:
             p.CD *= 1.0 + 0.3 * math.sin(7 * p.Mach + 1.0) ** 2
-        dm.BC = case["bc"] * 1.5
         tc._init_trajectory(shot)  # pylint: disable=protected-access
         tc.drag_by_mach(1.1)
         for p, (m, c) in zip(dm.drag_table, keep):
